@@ -49,6 +49,7 @@ type Val struct {
 	Clo    *closure
 	Origin  *Loc // slice made from array storage
 	OriginT types.Type
+	Seq     *seqView // slice seen as a value sequence (spec functions)
 }
 
 // State is the symbolic store at a program point.
